@@ -1,12 +1,23 @@
+mod c01;
+mod common;
+mod desc;
+mod gen;
+mod genair;
+mod inst;
+
 fn main() {
     let args = vf_core::parse_args();
-    let mut run = vf_core::Run::new(&args, "exploration");
+    let level = match args.property.as_str() {
+        "C02" | "C03" | "C06" => "fault_enumeration",
+        _ => "exploration",
+    };
+    let mut run = vf_core::Run::new(&args, level);
     match args.property.as_str() {
+        "C01" => c01::run(&mut run),
         other => {
-            eprintln!("vf-stark does not serve {other} yet (planned: C01 C02 C03 C04 C06 C17)");
+            eprintln!("vf-stark does not serve {other} yet");
             std::process::exit(2);
         },
     }
-    #[allow(unreachable_code)]
     run.finish_and_exit();
 }
